@@ -290,6 +290,7 @@ func c10Packet(c *h.Ctx, kind string, key interface{}, p c10Pkt, judgeHere bool)
 		return nil
 	}
 	c.Exec(1)
+	c.Retain(c10Mar, out, smp)
 	c10Emit(c, map[string]interface{}{"op": "marshal", "k": kind, "p": p, "out": h.Bytes(out), "err": err != nil})
 	if err != nil {
 		return nil
